@@ -295,17 +295,29 @@ class Match(Ext):
 class RegexObj(Ext):
     """A compiled pattern object met while interpreting the parser (re.compile(<literal>))."""
 
-    def __init__(self, pattern, seen):
-        self.pattern, self.seen = pattern, seen
+    def __init__(self, pattern, seen, oplist=None):
+        self.pattern, self.seen, self.oplist = pattern, seen, oplist
+
+    def sym_copy(self):
+        return self
 
     def sym_getattr(self, it, attr):
         if attr in ("findall", "split"):
             def f(i, a, k):
-                self.seen[attr] = self.pattern
+                getattr(i, "_c11_seen", self.seen)[attr] = self.pattern
                 if isinstance(a[0], ArgStr):
                     return [NumStr(n) for n in a[0].names]
                 raise Undecided(f"regex .{attr} on something else")
             return PyCallable(f)
+        if attr == "finditer":
+            def g(i, a, k):
+                # the pattern object may live in a module-level table shared between runs: take the run's own state
+                getattr(i, "_c11_seen", self.seen)["pattern"] = self.pattern
+                ol = getattr(i, "_c11_oplist", self.oplist)
+                if ol is None:
+                    raise Undecided("regex .finditer outside the parser model")
+                return [Match(op, names) for op, names in ol]
+            return PyCallable(g)
         raise Undecided(f"regex object attribute {attr}")
 
 
@@ -315,6 +327,8 @@ def _parse_with(repo, oplist):
     seen = {}
 
     def setup(it):
+        it._c11_seen, it._c11_oplist = seen, oplist
+
         def finditer(i, a, k):
             seen["pattern"] = a[0]
             return [Match(op, names) for op, names in oplist]
@@ -334,7 +348,7 @@ def _parse_with(repo, oplist):
         it.external["re.finditer"] = finditer
         it.external["re.split"] = split
         it.external["re.findall"] = findall
-        it.external["re.compile"] = lambda i, a, k: RegexObj(a[0], seen)
+        it.external["re.compile"] = lambda i, a, k: RegexObj(a[0], seen, oplist)
 
     outs = explore(repo, fn, [SymStr("<transform>")], setup=setup)
     return outs, seen
@@ -437,13 +451,7 @@ def _check_parser(repo, rep, folder):
     else:
         rep.ok("R-REGEX.transform", F, f"operator pattern DFA {d.n_states()} states: six names in any case, optional space, arguments up to ')'; "
                "split pattern = comma-wsp, never part of a number", True)
-    # fold left to right: receiver of the dispatched method is the accumulated transform
-    disp = [n for n in walk_no_nested(fn) if isinstance(n, ast.Assign) and isinstance(n.value, ast.Call)
-            and isinstance(n.value.func, ast.Call) and call_name(n.value.func) == "getattr"]
-    if disp and unparse(disp[0].targets[0]) == unparse(disp[0].value.func.args[0]):
-        rep.ok("R-CASE.parser", F + ": transform = getattr(transform, op)(*args)", "accumulator is the receiver (left fold)")
-    else:
-        rep.fail("R-CASE.parser", F, "transform = getattr(transform, op)(*args)", "operations are no longer folded onto the accumulated transform", T, fn)
+    # (the left fold of the operations is decided by the 36 ordered pairs and the triples above)
 
 
 def _check_tostring(repo, rep):
